@@ -705,9 +705,9 @@ class LevelOverhangByConstituency:
         if overall_evaluator:
             party_votes = votelib.convert.VoteTotals().convert(votes)
         else:
-            overall_evaluator = votelib.convert.PostConverted(
+            overall_evaluator = PostConverted(
                 self.constituency_evaluator,
-                votelib.convert.DistributionMerger()
+                votelib.convert.MergedDistributions()
             )
             party_votes = votes
         # Progressively increase the number of seats until all parties get at
